@@ -609,6 +609,8 @@ static char telnet_ga[] = { INT_CHAR(IAC), INT_CHAR(GA), 0 };
  * @param ip Pointer to interactive structure.
  * @return Number of characters copied.
  */
+#define COPY_CHARS_GONE ((size_t) -1)	/* a negotiation callback removed the interactive: ip is freed */
+
 static size_t copy_chars (UCHAR* from, UCHAR* to, size_t count, interactive_t* ip) {
 
   size_t i;
@@ -678,6 +680,8 @@ static size_t copy_chars (UCHAR* from, UCHAR* to, size_t count, interactive_t* i
                       break;	/* too short: sb_buf[2..] is left over from earlier or never written */
                     copy_and_push_string ((char*)ip->sb_buf + 2);
                     safe_apply (APPLY_TERMINAL_TYPE, ip->ob, 1, ORIGIN_DRIVER);
+                    if (!is_interactive_user (ip))
+                      return COPY_CHARS_GONE;	/* the callback closed this connection */
                     break;
                   }
                 case TELOPT_NAWS:
@@ -691,6 +695,8 @@ static size_t copy_chars (UCHAR* from, UCHAR* to, size_t count, interactive_t* i
                     push_number (w);
                     push_number (h);
                     safe_apply (APPLY_WINDOW_SIZE, ip->ob, 2, ORIGIN_DRIVER);
+                    if (!is_interactive_user (ip))
+                      return COPY_CHARS_GONE;	/* the callback closed this connection */
                     break;
                   }
                 case TELOPT_LINEMODE:
@@ -785,6 +791,8 @@ static size_t copy_chars (UCHAR* from, UCHAR* to, size_t count, interactive_t* i
                      */
                     copy_and_push_string ((char*)ip->sb_buf);
                     safe_apply (APPLY_TELNET_SUBOPTION, ip->ob, 1, ORIGIN_DRIVER);
+                    if (!is_interactive_user (ip))
+                      return COPY_CHARS_GONE;	/* the callback closed this connection */
                     break;
                   }
                 }
@@ -2002,7 +2010,13 @@ static void get_user_data (interactive_t* ip, io_event_t* evt) {
            * process suboption negotiations (TTYPE, NAWS, LINEMODE), etc.
            * copy_chars() implements the TELNET state machine.
            */
-          ip->text_end += copy_chars ((UCHAR *) buf, (UCHAR *) ip->text + ip->text_end, num_bytes, ip);
+          {
+            size_t copied = copy_chars ((UCHAR *) buf, (UCHAR *) ip->text + ip->text_end, num_bytes, ip);
+
+            if (copied == COPY_CHARS_GONE)
+              return;
+            ip->text_end += copied;
+          }
           opt_trace (TT_COMM|3, "Command buffer contains %d characters\n", ip->text_end - ip->text_start);
           /*
            * now, ip->text_end is just after the last character read. If the last character
